@@ -1136,7 +1136,14 @@ func semanticOnce(t *rapid.T, kinds []string) {
 				// entry: one of the two digests cannot be that of this image
 				other := signOne(t, "pe", dir)
 				oin, err := pegen.Parse(other.data)
-				if err != nil || !oin.HasCertTable() || fingerprint("pe", other.data) == fingerprint("pe", sa.data) {
+				if err != nil || !oin.HasCertTable() {
+					panic("skip-rep")
+				}
+				// the other artefact must be another image (a second signature over the same
+				// image is a legitimate addition)
+				da, e1 := pegen.AuthenticodeDigest(sa.data, crypto.SHA256)
+				db, e2 := pegen.AuthenticodeDigest(other.data, crypto.SHA256)
+				if e1 != nil || e2 != nil || bytes.Equal(da, db) {
 					panic("skip-rep")
 				}
 				if int(in.CertTableOff)+int(in.CertTableSize) != len(sa.data) || int(oin.CertTableOff)+int(oin.CertTableSize) > len(other.data) {
